@@ -13,6 +13,10 @@ func extraMain(cmd string) bool {
 		roundsMain()
 	case "rounds-replay":
 		roundsReplay()
+	case "repl":
+		replMain()
+	case "repl-replay":
+		replReplay()
 	default:
 		return false
 	}
